@@ -171,8 +171,14 @@ pub fn run(tier: Tier) {
     let legit = |sc: &Signed| legit_set.contains(&format!("{:?}", sc));
     let faults = AtomicUsize::new(0);
     let rejected = AtomicUsize::new(0);
-    let limit = tier.pick(64, 100_000);
-    protos.par_iter().take(limit).for_each(|(h, p, bytes)| {
+    // fault injection is quadratic in the number of sealed tokens (every token is a partner of every other one
+    // with the same first operation): it runs on an evenly spaced subset of the sealed tokens, all of which
+    // are still partners; the subset size is reported
+    let limit = tier.pick(64, 1024);
+    let stride = (protos.len() / limit).max(1);
+    let chosen: Vec<&(Vec<Op>, schema::Biscuit, Vec<u8>)> = protos.iter().step_by(stride).take(limit).collect();
+    let fault_injected_tokens = chosen.len();
+    chosen.par_iter().for_each(|(h, p, bytes)| {
         let rootk = root(hist_root(h)).public();
         let partners: Vec<&schema::Biscuit> = protos.iter().filter(|(h2, _, _)| h2[0] == h[0]).map(|x| &x.1).chain(unsealed_protos.iter().filter(|u| u.authority == p.authority)).collect();
         let pools = pools_of(partners.into_iter());
@@ -235,6 +241,8 @@ pub fn run(tier: Tier) {
         "operations_attempted_on_sealed_tokens": ops_attempted.load(Ordering::Relaxed),
         "sealed_tokens_mutated": protos.len().min(limit),
         "structured_faults_on_sealed_tokens": faults.load(Ordering::Relaxed),
+        "sealed_tokens_fault_injected (evenly spaced subset)": fault_injected_tokens,
+        "sealed_tokens_total": protos.len(),
         "faults_refused": rejected.load(Ordering::Relaxed),
         "depth_after_build": st.max_depth,
         "exhaustive": !st.capped,
